@@ -1,0 +1,18 @@
+//go:build verif
+
+package knownhosts
+
+// Contracts for govc (/verif). Comments only.
+
+// wildcardMatch against OpenSSH's match_pattern (spec.glob, /verif/specs/glob.smt2).
+//@ pred G(p, s) = spec.glob(row(p), off(p), len(p), row(s), off(s), len(s))
+
+//@ func wildcardMatch
+//@ props C42
+//@ pure
+//@ ensures result == G(pat, str)
+//@ loop 1 invariant G(pat, str) == G(entry(pat), entry(str))
+//@ loop 2 invariant -1 <= rangeindex && rangeindex < len(str)
+//@ loop 2 invariant spec.globstar(row(pat), off(pat)+1, len(pat)-1, row(str), off(str), len(str), 0) ==
+//@ |   spec.globstar(row(pat), off(pat)+1, len(pat)-1, row(str), off(str), len(str), rangeindex+1)
+//@ canary ensures result == (len(pat) == len(str))
